@@ -880,6 +880,134 @@ SUBS = {'plain': sub_plain, 'ext': sub_ext, 'extunc': sub_extunc, 'bip38': sub_b
 def _fill(seed, tag, ln=32):
     return hashlib.sha256(b'C12 %s %d' % (tag.encode(), seed)).digest()[:ln]
 
+# ---- public-only keys: every import form x every accessor order (lazily computed coordinates)
+PUB_FORMS = ['chex', 'cbytes', 'uhex', 'ubytes', 'from_private', 'hd_bytes', 'hd_xpub']
+PUB_ACC = ['public_hex', 'public_byte', 'public_uncompressed_hex', 'public_uncompressed_byte', 'x', 'y', 'x_hex',
+           'y_hex', 'public_point', 'as_dict']
+
+
+def _coord_class(pt):
+    """Shape of the coordinates (leading zero nibbles / bytes are where fixed-width formatting goes wrong)."""
+    def z(v):
+        h = '%064x' % v
+        return len(h) - len(h.lstrip('0'))
+    return 'x_lz%d|y_lz%d' % (min(z(pt[0]), 3), min(z(pt[1]), 3))
+
+
+def sub_pubforms(case):
+    """case = {'d': hex, 'net': name}: a public-only key of that secret is imported in every form; every public
+    accessor is read, in forward and in reverse order on fresh objects; each value is compared with the reference
+    point; the uncompressed and the compressed export are imported again."""
+    from bitcoinlib.keys import Key, HDKey
+    D = Devs()
+    d = int(case['d'], 16)
+    net = case['net']
+    pt = secp.pub(d)
+    cpub, upub = secp.ser(pt, True), secp.ser(pt, False)
+    cc = _coord_class(pt)
+    exp = {'public_hex': None, 'public_byte': None, 'public_uncompressed_hex': upub.hex(),
+           'public_uncompressed_byte': upub.hex(), 'x': pt[0], 'y': pt[1], 'x_hex': '%064x' % pt[0],
+           'y_hex': '%064x' % pt[1], 'public_point': (pt[0], pt[1])}
+    nt = []
+
+    def make(form):
+        if form == 'chex':
+            return Key(cpub.hex(), network=net), True
+        if form == 'cbytes':
+            return Key(cpub, network=net), True
+        if form == 'uhex':
+            return Key(upub.hex(), network=net), False
+        if form == 'ubytes':
+            return Key(upub, network=net), False
+        if form == 'from_private':
+            return Key(d, network=net).public(), True
+        if form == 'hd_bytes':
+            return HDKey(key=cpub, chain=b'\x05' * 32, network=net, is_private=False, witness_type='legacy'), True
+        xk = bip32.XKey(None, pt, b'\x05' * 32, 0, b'\x00' * 4, 0)
+        return HDKey.from_wif(xk.ser(nets.hd_prefix(net, False, 'legacy', False), False), network=net), True
+
+    def read(k, a):
+        if a == 'public_point':
+            v = k.public_point()
+            return (int(v[0]), int(v[1])) if isinstance(v, (tuple, list)) else (int(v.x), int(v.y))
+        if a == 'as_dict':
+            dd = k.as_dict()
+            return {f: dd.get(f) for f in ('public_hex', 'public_uncompressed_hex', 'point_x', 'point_y') if f in dd}
+        v = getattr(k, a)
+        return bytes(v).hex() if isinstance(v, (bytes, bytearray)) else v
+    for form in PUB_FORMS:
+        for order in ('forward', 'reverse', 'uncompressed_first'):
+            accs = list(PUB_ACC)
+            if order == 'reverse':
+                accs.reverse()
+            elif order == 'uncompressed_first':
+                accs = ['public_uncompressed_byte', 'y_hex'] + [a for a in accs if a not in ('public_uncompressed_byte', 'y_hex')]
+            try:
+                k, comp = make(form)
+            except Exception as e:
+                D.dev('pubforms|valid_public_key_refused|%s' % form, {'d': case['d'], 'exc': _exc(e)})
+                break
+            for a in accs:
+                D.n += 1
+                try:
+                    got = read(k, a)
+                except Exception as e:
+                    D.dev('pubforms|%s_raises|import_%s|%s' % (a, 'compressed' if comp else 'uncompressed', cc),
+                          {'d': case['d'], 'form': form, 'order': order, 'exc': _exc(e)})
+                    continue
+                if a in ('public_hex', 'public_byte'):
+                    want = (cpub if comp else upub).hex()
+                elif a == 'as_dict':
+                    want = dict(got)
+                    for f, w in (('public_hex', (cpub if comp else upub).hex()), ('public_uncompressed_hex', upub.hex()),
+                                 ('point_x', pt[0]), ('point_y', pt[1])):
+                        if f in want:
+                            want[f] = w
+                else:
+                    want = exp[a]
+                if got != want:
+                    D.dev('pubforms|%s_differs_from_reference_point|import_%s|%s' % (a, 'compressed' if comp else 'uncompressed', cc),
+                          {'d': case['d'], 'form': form, 'order': order, 'got': str(got)[:140], 'expected': str(want)[:140]})
+            nt.append('%s.%s.%s' % (case['d'][:16], form, order))
+        # the exports import back to the same public point, as public keys
+        try:
+            k, comp = make(form)
+            for a in ('public_uncompressed_hex', 'public_uncompressed_byte', 'public_hex', 'public_byte'):
+                D.n += 1
+                v = getattr(k, a)
+                try:
+                    k2 = Key(v, network=net)
+                    back = (k2.is_private, int(k2.x), int(k2.y))
+                except Exception as e:
+                    back = 'raise:' + _exc(e)[:80]
+                if back != (False, pt[0], pt[1]):
+                    D.dev('pubforms|reimport_of_%s|not_the_same_public_point|%s' % (a, cc),
+                          {'d': case['d'], 'form': form, 'exported': (bytes(v).hex() if isinstance(v, (bytes, bytearray)) else v)[:140],
+                           'back': str(back)[:160]})
+        except Exception as e:
+            D.dev('pubforms|export_for_reimport_raises|%s' % cc, {'d': case['d'], 'form': form, 'exc': _exc(e)})
+    D.bump('compared')
+    return {'devs': D.devs, 'n': D.n, 'nt': nt, 'out': D.out}
+
+
+SUBS['pubforms'] = sub_pubforms
+
+
+def _coord_specials(limit):
+    """The first secrets whose public point has 1 / 2 / 3+ leading zero hex digits in x resp. y (walk k*G)."""
+    found = {}
+    pt = secp.G
+    d = 1
+    while d <= limit and len(found) < 6:
+        for name, v in (('x', pt[0]), ('y', pt[1])):
+            h = '%064x' % v
+            lz = min(len(h) - len(h.lstrip('0')), 3)
+            if lz and (name, lz) not in found:
+                found[(name, lz)] = d
+        d += 1
+        pt = secp.add(pt, secp.G)
+    return sorted(set(found.values()))
+
 
 def _special_secrets(seed):
     f = _fill(seed, 'secret')
@@ -919,6 +1047,13 @@ def run(ctx):
     B = 2
     if want('plain'):
         ctx.pmap('plain', [{'ds': ['%x' % d for d in keys[i:i + B]], 'i0': i} for i in range(0, len(keys), B)], chunk=1)
+    # ---- public-only keys in every import form: secrets whose point has leading zero digits in x or y first
+    if want('pubforms'):
+        ps = _coord_specials(3000 if q else 40000) + [1, 2, 3, N - 1] + special[12:16] + window[:4 if q else 32]
+        ps = list(dict.fromkeys(ps))
+        ctx.pmap('pubforms', [{'d': '%x' % d, 'net': NETS[i % len(NETS)]} for i, d in enumerate(ps)], chunk=1)
+        ctx.note('pubforms', {'secrets': len(ps), 'forms': PUB_FORMS, 'accessors': PUB_ACC,
+                              'orders': ['forward', 'reverse', 'uncompressed_first']})
     # ---- extended keys
     dcs_all = [(dp, ci) for dp in (0, 1, 3, 255) for ci in (0, (1 << 31) - 1, 1 << 31, (1 << 32) - 1)]
     dcs = [(0, 0), (1, (1 << 31) - 1), (3, 1 << 31), (255, (1 << 32) - 1), (1, 1), (0, 1 << 31)] if q else dcs_all
